@@ -53,6 +53,8 @@ var optNamePool = []string{
 	"v", "ver", "verb", "verbose", "f", "fl", "flag", "fleg", "x", "y", "z", "a", "b", "c",
 	"o", "opt", "output", "out", "n", "num", "l", "lis", "list", "m", "map", "i", "int", "s", "str", "string",
 	"d", "dry", "dry-run", "debug", "e", "env", "p", "profile", "t", "k", "q", "w",
+	// an option and its negation, as programs commonly declare them
+	"color", "no-color", "no-dry-run", "no-v", "no-verbose", "no", "no-",
 }
 var exoticNamePool = []string{"é", "日", "\U0001F600", "n.m", "k:1", "2", "a1", "X", "Ver", "-", "é2", "日本"}
 var cmdNamePool = []string{"log", "show", "run", "sub", "list", "add", "rm", "x", "ver", "get", "put", "o", "verbose", "help2"}
@@ -198,7 +200,13 @@ func (g *Gen) genCmd(name string, depth int, usedOpts map[string]bool, reserved 
 		c.SuggestFns = []int{1 + g.r.Intn(4)}
 	}
 	if g.pct(15) {
-		c.SynArgs = [][2]string{{"<file>", "the file"}, {"<n>", ""}}[:1+g.r.Intn(2)]
+		// 1-3 declared arguments; described / not described in every position, empty names too
+		pool := [][2]string{{"<file>", "the file"}, {"<n>", ""}, {"<dest>", "where to\nput it"}, {"", "nameless"}, {"<x>", ""}}
+		k := 1 + g.r.Intn(3)
+		c.SynArgs = nil
+		for _, i := range g.r.Perm(len(pool))[:k] {
+			c.SynArgs = append(c.SynArgs, pool[i])
+		}
 	}
 	if depth < g.MaxDepth {
 		nc := g.r.Intn(g.MaxCmds + 1)
